@@ -134,8 +134,14 @@ def gen_utilities_limit(rng, streams):
 def gen_problem(rng, nzones=None, regime=None, nmax=7):
     nz = nzones or rng.choice([1, 1, 2, 3, 4])
     streams, shapes = [], []
+    # one problem in twelve is LARGE (up to 14 streams in a zone), one in twelve has all duties scaled by a power of two (x1024 or
+    # x1/128: magnitudes of 1e5 and 1e-2 kW without leaving the exactly representable numbers)
+    big = rng.random() < 0.085
+    scale = rng.choice([1024.0, 1.0 / 128.0]) if rng.random() < 0.085 else 1.0
     for z in range(nz):
-        ss, sh = gen_streams(rng, zone=f"P{z}", nmax=nmax)
+        ss, sh = gen_streams(rng, zone=f"P{z}", nmax=14 if (big and z == 0) else nmax)
+        for s in ss:
+            s["heat_flow"] *= scale
         for s in ss:
             s["name"] = f"{s['name']}_{z}"
         streams += ss
@@ -146,6 +152,10 @@ def gen_problem(rng, nzones=None, regime=None, nmax=7):
         uts, reg = gen_utilities_steered(rng, streams)
     else:
         uts, reg = gen_utilities(rng, regime)
+    if big:
+        shapes = shapes + ["many_streams"]
+    if scale != 1.0:
+        shapes = shapes + [f"duties_x{scale:g}"]
     return dict(streams=streams, utilities=uts), dict(zones=nz, shapes=shapes, regime=reg)
 
 
